@@ -478,6 +478,34 @@ func c07EqualPairs(c *Case) {
 				}
 			}
 		}
+		// delete the first, then insert the other representation: it may be
+		// refused or accepted, but it must stay one key and a sound table
+		if c.Res.Status != "violated" {
+			conn.Exec("delete from "+vt+" where k = ?", a)
+			err3 := conn.Exec("insert into "+vt+" values (?,?)", b, "third")
+			c.Count("equal_pairs_reinserted_after_delete", 1)
+			if cl := errClass(err3); cl != "ok" && cl != "constraint-pk" {
+				c.Violate("C07:equal-pair:reinsert-after-delete-"+cl, fmt.Sprintf("%s: after DELETE of the first, INSERT of the equal key gave %v", desc, err3), nil)
+			}
+			rv, err := conn.Rows("select count(*) from "+vt+" where k = ?", b)
+			want := "i:0"
+			if err3 == nil {
+				want = "i:1"
+			}
+			if err != nil || len(rv) != 1 || rv[0] != want {
+				c.Violate("C07:equal-pair:count-after-reinsert", fmt.Sprintf("%s: after delete and re-insert (%v) count(*) where k = second is %v (err %v), want %s", desc, err3, rv, err, want), nil)
+			}
+			if _, err := conn.Rows("select * from " + vt + " order by k"); err != nil {
+				c.Violate("C07:equal-pair:scan-error", desc+": scan after delete and re-insert fails: "+err.Error(), nil)
+			}
+			// and more rows around it still go in
+			for i := 0; i < 6; i++ {
+				if err := conn.Exec("insert into "+vt+" values (?,?)", int64(5000+i), "after"); err != nil {
+					c.Violate("C07:equal-pair:later-insert-error", desc+": a later insert fails: "+err.Error(), nil)
+					break
+				}
+			}
+		}
 		conn.Exec("drop table " + vt)
 		dropStore(st)
 	}
